@@ -368,7 +368,7 @@ pub fn run(args: &Args) -> i32 {
     let mut total = Tally::default();
     {
         let rules = rule_list_quick();
-        let full_years = true; let _ = thorough;
+        let full_years = !args.digest_mode; let _ = thorough;
         let t = rules
             .par_iter()
             .enumerate()
@@ -432,7 +432,10 @@ pub fn run(args: &Args) -> i32 {
         rec.sub("full_time_offset_product", json!({"explored": t.rules, "refused_by_constructor": t.rejected, "not_interleaving_or_degenerate": t.skipped_class, "probes": t.evals}));
         total = total.merge(t);
     }
-    total = total.merge(sweep_partial_ties(&tabs, &rec, thorough, kf1_open));
+    // C19 digest mode: the partial-tie family is left to C04 itself
+    if !args.digest_mode {
+        total = total.merge(sweep_partial_ties(&tabs, &rec, thorough, kf1_open));
+    }
     let mut tl = Tally::default();
     if let Err(m) = guard(|| sweep_extreme_years(&cyc, &rec, &mut tl, kf1_open)) {
         rec.violation("extreme_years", json!({"kind":"extreme_sweep"}), json!("no panic"), json!(m));
